@@ -247,3 +247,39 @@ func H_C18_Rotate() {
 	verifAssert(err == nil && f.Signer != nil, "C18.rotate-installs")
 	verifReach("C18.rotate")
 }
+
+// two events through the same formatter: the first document must survive formatting the second
+func H_C18_two_events() {
+	src := nondetString()
+	verifAssume(src != "")
+	f := &FormatterFilter{Source: &url.URL{Path: src}}
+	if nondetBool() {
+		f.Format = FormatText
+	}
+	mk := func() (*eventlogger.Event, Event) {
+		t := eventlogger.EventType(nondetString())
+		verifAssume(t != "")
+		id := nondetString()
+		verifAssume(id != "")
+		e := &eventlogger.Event{Type: t, CreatedAt: time.Unix(0, int64(nondetInt())), Formatted: map[string][]byte{}, Payload: &cWithID{id: id}}
+		ct := DataContentTypeCloudEvents
+		if f.Format == FormatText {
+			ct = DataContentTypeText
+		}
+		return e, Event{ID: id, Source: src, SpecVersion: "1.0", Type: string(t), Data: e.Payload, DataContentType: ct, Time: e.CreatedAt}
+	}
+	eA, wantA := mk()
+	eB, _ := mk()
+	ctx := context.Background()
+	_, errA := f.Process(ctx, eA)
+	f.Process(ctx, eB)
+	if errA == nil {
+		key := string(FormatJSON)
+		if f.Format == FormatText {
+			key = string(FormatText)
+		}
+		got, ok := eA.Format(key)
+		verifAssert(ok && string(got) == encodeDoc(wantA, f.Format == FormatText), "C18.stored-document-survives-later-events")
+		verifReach("C18.two.end")
+	}
+}
